@@ -36,6 +36,18 @@ Progs == {
 
 Pick(seq) == seq[RandomElement(1..Len(seq))]
 
+ReadProgs == {
+  <<Sstore(1, 9), Op("ret") @@ [s |-> 1]>>,
+  <<Op("ret") @@ [s |-> 1]>>,
+  <<Op("ret") @@ [s |-> 2]>>,
+  <<Sstore(2, 7), Op("create"), Log(<<5>>), Op("selfdestruct")>>,
+  <<Sub(<<Sstore(3, 3)>>), Op("ret") @@ [s |-> 3]>> }
+
+LogProgs == {
+  <<Log(<<>>)>>, <<Log(<<1>>)>>, <<Log(<<2>>), Log(<<1, 2>>)>>, <<Log(<<1, 1>>), Log(<<2, 1, 2>>)>>,
+  <<Log(<<1, 2, 1>>), Log(<<2, 2, 2, 1>>)>>, <<Log(<<3>>), Log(<<1, 3>>), Log(<<2>>)>>, <<Log(<<2, 1>>), Op("revert")>>,
+  <<Log(<<1, 2, 1, 2>>)>>, <<Sub(<<Log(<<2, 2>>)>>), Log(<<1>>)>> }
+
 NoLc == [fn |-> "none"]
 
 Tx(kind, from, to, ckind, ops, lc, gas) ==
@@ -157,6 +169,49 @@ GTransact ==
   /\ ctr' = [ctr EXCEPT !.i = @ + 1, !.x = @ + 1,
                         !.h = IF cur.n = 0 /\ cur'.n > 0 THEN @ + 1 ELSE @]
 
+(* reads at a block boundary: state-mutating programs through eth_call / eth_callMany / eth_estimateGas (C10, C17) *)
+ReadTx(from, to, ops) == Tx("call", from, to, NULL, ops, NoLc, "ample")
+ReadStep(op, tx) == [op |-> op, from |-> tx.from, to |-> tx.to, ckind |-> tx.ckind, ops |-> tx.ops, lc |-> tx.lc]
+
+GEthCall ==
+  /\ Started /\ cur.n = 0
+  /\ \E from \in {RandomElement(Senders \cup Signers)}, to \in {RandomElement(Cells \cup {"dead"})}, ops \in {RandomElement(Progs \cup ReadProgs)}, op \in {Pick(<<"ethcall", "ethcall", "estimate">>)} :
+       Push(ReadStep(op, ReadTx(from, to, ops)))
+  /\ UNCHANGED <<chain, cur, world, pool, snaps, maxEver, dur, ctr>>
+
+GEthCallCreate ==
+  /\ Started /\ cur.n = 0
+  /\ \E from \in {RandomElement(Senders)}, ck \in {RandomElement({"cell", "bad"})} :
+       Push(ReadStep("ethcall", Tx("create", from, NULL, ck, <<>>, NoLc, "ample")))
+  /\ UNCHANGED <<chain, cur, world, pool, snaps, maxEver, dur, ctr>>
+
+GCallMany ==
+  /\ Started /\ cur.n = 0 /\ Cells # {}
+  /\ \E from \in {RandomElement(Senders)}, to \in {RandomElement(Cells)}, o1 \in {RandomElement(Progs)}, o2 \in {RandomElement(ReadProgs)}, o3 \in {RandomElement(Progs \cup ReadProgs)}, est \in {Pick(<<FALSE, FALSE, TRUE>>)} :
+       Push([op |-> "callmany", estimate |-> est,
+             calls |-> <<ReadStep("c", ReadTx(from, to, o1)), ReadStep("c", ReadTx(from, to, o2)), ReadStep("c", ReadTx(from, to, o3))>>])
+  /\ UNCHANGED <<chain, cur, world, pool, snaps, maxEver, dur, ctr>>
+
+(* eth_call immediately followed by the same transaction (C17) *)
+GPredicted ==
+  /\ Started /\ cur.n = 0
+  /\ \E from \in {RandomElement(Senders)}, to \in {RandomElement(Cells \cup {"dead"})}, ops \in {RandomElement(Progs \cup ReadProgs)}, cr \in {Pick(<<0, 0, 1>>)} :
+       LET tx == IF cr = 1 THEN Tx("create", from, NULL, "cell", <<>>, NoLc, "ample") ELSE ReadTx(from, to, ops)
+       IN  /\ AddTx(TTok(ctr.x), tx, ITok(ctr.i), cur.n, CurHash, CurTs, PredSeen(tx))
+           /\ sched' = sched \o <<ReadStep("ethcall", tx),
+                                  [op |-> "tx", via |-> IF cr = 1 THEN "deploy" ELSE "call", from |-> tx.from, to |-> tx.to, ckind |-> tx.ckind,
+                                   ops |-> tx.ops, lc |-> tx.lc, insc |-> ITok(ctr.i), idx |-> cur.n, hash |-> CurHash, ts |-> CurTs,
+                                   gas |-> "ample", txid |-> XTok(ctr.x), enc |-> "hex"]>>
+  /\ ctr' = [ctr EXCEPT !.i = @ + 1, !.x = @ + 1, !.h = IF cur.n = 0 THEN @ + 1 ELSE @]
+
+GLogCall ==
+  \E from \in {RandomElement(Senders)}, to \in {RandomElement(Cells)}, ops \in {RandomElement(LogProgs)} :
+    GAdd("call", Tx("call", from, to, NULL, ops, NoLc, "ample"), "hex")
+
+GDeployCell ==
+  /\ Cardinality(Cells) < 2
+  /\ \E from \in {RandomElement(Senders)} : GAdd("deploy", Tx("create", from, NULL, "cell", <<>>, NoLc, "ample"), "hex")
+
 GFinalise ==
   /\ Started
   /\ FinaliseOk(CurTs, CurHash, cur.n)
@@ -202,6 +257,12 @@ Weighted ==
     [] Focus = "proto"  -> GCall \/ GDeploy \/ GFinalise \/ GBad \/ GBad \/ GTransact \/ GLedger \/ GMine
     [] Focus = "pool"   -> GTransact \/ GTransact \/ GTransact \/ GFinalise \/ GFinalise \/ GMine \/ GCall \/ GReorg \/ GClear
     [] Focus = "ledger" -> GLedger \/ GLedger \/ GUserLedger \/ GUserLedger \/ GFinalise \/ GReorg \/ GCommit \/ GCall
+    [] Focus = "reads"  -> GEthCall \/ GEthCall \/ GEthCallCreate \/ GCallMany \/ GPredicted \/ GPredicted \/ GCall \/ GDeploy \/ GFinalise \/ GFinalise
+                             \/ GCommit \/ GReorg \/ GTransact \/ GLedger
+    [] Focus = "logs"   -> IF Cardinality(Cells) < 2 THEN (GDeployCell \/ GFinalise)
+                           ELSE (GLogCall \/ GLogCall \/ GLogCall \/ GFinalise \/ GFinalise \/ GCommit)
+    [] Focus = "logsnc" -> IF Cardinality(Cells) < 2 THEN (GDeployCell \/ GFinalise)
+                           ELSE (GLogCall \/ GLogCall \/ GLogCall \/ GFinalise \/ GFinalise)
     [] Focus = "commit" -> GCall \/ GDeploy \/ GFinalise \/ GFinalise \/ GCommit \/ GClear \/ GRestart \/ GTransact \/ GLedger \/ GMine
     [] OTHER -> GDeploy \/ GCall \/ GCall \/ GLedger \/ GUserLedger \/ GTransact \/ GFinalise \/ GFinalise \/ GMine
                  \/ GCommit \/ GClear \/ GRestart \/ GReorg \/ GBad
